@@ -13,6 +13,11 @@ import (
 
 // refTraverse is written from the statement; each step uses the real Index / ConvertStack /
 // ConvertCondition / Expression. failStep is the step at which the walk failed (-1 on success).
+// c07Reject is the one validity closure of C07's trees that says no.
+func c07Reject(...any) error { return errCat }
+
+const c07RejectMark = "c07: validity closure rejects"
+
 func refTraverse(s stackage.Stack, path []int) (v any, ok bool, failStep int) {
 	if len(path) == 0 {
 		return nil, false, 0
@@ -21,7 +26,9 @@ func refTraverse(s stackage.Stack, path []int) (v any, ok bool, failStep int) {
 	for k, idx := range path {
 		// a Stack that its own validity policy currently rejects is not one to walk into (Traverse shares
 		// its gate with Valid and String); one that merely ends a path is handed out like any other value
-		if cur.Valid() != nil {
+		// (the reference does not ask the library's Valid - a library that mis-judges validity must not take the
+		// reference along: the stacks that were given the rejecting closure carry a category that says so)
+		if cur.Category() == c07RejectMark {
 			return nil, false, k
 		}
 		e, found := cur.Index(idx)
@@ -115,13 +122,13 @@ func c07Opts(name string) *buildOpts {
 		// every stack below the root carries a validity policy that currently says no
 		return &buildOpts{after: func(s stackage.Stack, path string) {
 			if path != "r" {
-				s.SetValidityPolicy(func(...any) error { return errCat })
+				s.SetValidityPolicy(c07Reject).SetCategory(c07RejectMark)
 			}
 		}}
 	case "rejecting-validity-at-depth-2":
 		return &buildOpts{neg: true, after: func(s stackage.Stack, path string) {
 			if strings.Count(path, ".") >= 2 || strings.Count(path, "/") >= 2 {
-				s.SetValidityPolicy(func(...any) error { return errCat })
+				s.SetValidityPolicy(c07Reject).SetCategory(c07RejectMark)
 			}
 		}}
 	case "conditions-frozen-after":
@@ -180,6 +187,8 @@ func c07Trees(c *Ctx) []node {
 	}
 	// three pointer hops above a Stack / a Condition: a way down like one hop
 	nested = append(nested, genStacks(1, 1, 2, atoms[:2], []string{"P3S", "CP3S", "P3C"}, kinds)...)
+	// declared pointer types above a Stack / an alias / a Condition, as element and as a Condition's expression
+	nested = append(nested, genStacks(1, 1, 2, atoms[:2], []string{"NPS", "NPA", "CNPS", "NPC", "PNPS", "AF", "CAF", "CFS"}, kinds)...)
 	// a Condition inside a Condition above a Stack (no way down: the outer expression is no Stack)
 	nested = append(nested, genStacks(1, 1, 2, atoms[:2], []string{"C2S", "C2A"}, kinds)...)
 	// pointers to interface variables (leaves) and to Stack variables (descendable, and re-pointable)
